@@ -79,6 +79,9 @@ func EncryptX25519(pubKey *[32]byte, msg []byte) []byte {
 
 // DecryptX25519 takes a x25519 private and public key and decrypts the message
 func DecryptX25519(privKey, pubKey *[32]byte, encrypted []byte) ([]byte, error) {
+	if len(encrypted) < 32 {
+		return nil, ErrX25519DecryptionFailed
+	}
 	var epk [32]byte
 	var nonce [24]byte
 	copy(epk[:], encrypted[:32])
